@@ -470,6 +470,10 @@ def oracle_stats(ctx, case, e, st, what="stats"):
         return
     ex = exact_stats(e)
     mx = max(abs(float(x)) for x in e)
+    bad = [k for k in STAT_KEYS if st[k] != st[k] or math.isinf(st[k])]
+    if bad:
+        ctx.fail(case, "statistic-equals-definition", f"{what}: {bad[0]} = {st[bad[0]]!r}, definition gives {float(ex[bad[0]])!r}", {"stat": bad[0]})
+        return
     for k in STAT_KEYS:
         if k in ("min", "max") or (k == "median" and ex["_med_exact"]):
             good = st[k] == st[k] and not math.isinf(st[k]) and frac(st[k]) == ex["_fr"][k]
@@ -510,7 +514,7 @@ def judge_stats(ctx, case, impl, outs):
                 ctx.mismatch(case, f"statistic {name} differs from Stats.{name}", st[name], float(exact))
         if list(impl["keys"]) != names:
             ctx.mismatch(case, "order/set of statistics differs from Gen.Units.statistics", impl["keys"], names)
-    if impl["single"] != {k: st.get(k) for k in impl["single"]}:
+    if {k: repr(v) for k, v in impl["single"].items()} != {k: repr(st.get(k)) for k in impl["single"]}:
         ctx.fail(case, "get_statistic=get_all_statistics", f"{impl['single']} vs {st}")
     if not impl["unchanged"]:
         ctx.fail(case, "inputs-unmodified", "computing statistics changed the error array")
